@@ -16,6 +16,8 @@ pub use config::*;
 
 mod pp;
 use pp::{preprocess, PpResult};
+#[cfg(feature = "verif")]
+pub use pp::{preprocess as verif_preprocess, Directive, DirectiveType, PpResult as VerifPpResult};
 mod resolve_inputs;
 use resolve_inputs::resolve_inputs;
 mod scan_dir;
